@@ -99,12 +99,18 @@ type c11Sess struct {
 func c11Open(c *Ctx, splitLen int) *c11Sess {
 	c11Opened++
 	s := NewSession(SessionOpts{Flood: true, Mutate: func(cfg *client.Config) {
-		cfg.SplitLen = splitLen
+		if c11Opened%3 != 0 {
+			cfg.SplitLen = splitLen
+		}
 		if c11Opened%2 == 0 {
 			cfg.Timeout = 0 // "wait indefinitely" for the dial; must not matter for sending
 		}
 	}})
 	mc, err := s.Connect()
+	if c11Opened%3 == 0 {
+		// every third session sets the split length only now, through Config(), on the connected client
+		s.Conn.Config().SplitLen = splitLen
+	}
 	if err != nil {
 		c.R.Inconcl("connect: " + err.Error())
 		return nil
